@@ -52,6 +52,17 @@ type Scenario struct {
 	Failures   []string `json:"failures,omitempty"`
 }
 
+type Directed struct {
+	Name     string   `json:"name"`
+	Failures []string `json:"failures,omitempty"`
+	Notes    []string `json:"notes,omitempty"`
+}
+
+type Results struct {
+	Scenarios []Scenario `json:"scenarios"`
+	Directed  []Directed `json:"directed"`
+}
+
 func coqCase(sc Scenario, r Reader) string {
 	al := make([]string, len(sc.Always))
 	for i, p := range sc.Always {
@@ -73,24 +84,28 @@ func main() {
 	defer c.Finish()
 	c.Family("monotone", []string{"From Model Require Import C07_PCacheConc."}, "monotone_versions", 12)
 
+	var rp struct {
+		Kind     string   `json:"kind"`
+		Name     string   `json:"name"`
+		Scenario Scenario `json:"scenario"`
+	}
 	if c.Replay != "" {
-		// a replay is a stored observation sequence: re-check it with the oracle and the acceptor
-		var rp struct {
-			Scenario Scenario `json:"scenario"`
-			Reader   int      `json:"reader"`
-		}
 		if err := c.LoadReplay(&rp); err != nil {
 			panic(err)
 		}
-		fmt.Printf("replay: scenario %s, failures recorded: %v\n", rp.Scenario.Name, rp.Scenario.Failures)
-		for _, r := range rp.Scenario.Readers {
-			c.Case("monotone", coqCase(rp.Scenario, r), rp.Scenario.Name)
+		if rp.Kind != "directed" {
+			// a stored observation sequence: re-check it with the acceptor
+			fmt.Printf("replay: scenario %s, failures recorded: %v\n", rp.Scenario.Name, rp.Scenario.Failures)
+			for _, r := range rp.Scenario.Readers {
+				c.Case("monotone", coqCase(rp.Scenario, r), rp.Scenario.Name)
+			}
+			for _, f := range rp.Scenario.Failures {
+				c.Fail(rp.Scenario.Name+":"+strings.SplitN(f, ":", 2)[0], f, rp)
+			}
+			c.Eval()
+			return
 		}
-		for _, f := range rp.Scenario.Failures {
-			c.Fail(rp.Scenario.Name+":"+strings.SplitN(f, ":", 2)[0], f, rp)
-		}
-		c.Eval()
-		return
+		fmt.Printf("replay: directed scenario %s\n", rp.Name)
 	}
 
 	// ---- build the runner with the race detector
@@ -112,7 +127,7 @@ func main() {
 
 	// ---- run it
 	resFile := filepath.Join(c.Out, "c07race.json")
-	run := exec.Command(bin, "-seed", fmt.Sprint(c.Seed), "-tier", c.Tier, "-out", resFile)
+	run := exec.Command(bin, "-seed", fmt.Sprint(c.Seed), "-tier", c.Tier, "-out", resFile, "-directed-only", rp.Name)
 	run.Env = append(os.Environ(), "GORACE=halt_on_error=0 exitcode=66")
 	var rerr bytes.Buffer
 	run.Stdout, run.Stderr = &rerr, &rerr
@@ -127,11 +142,25 @@ func main() {
 		c.Fail("runner-failed", fmt.Sprintf("the race-enabled runner did not produce results (%v): %s", err, tail(rerr.String(), 1500)), nil)
 		return
 	}
-	var scs []Scenario
-	if e := json.Unmarshal(b, &scs); e != nil {
+	var all Results
+	if e := json.Unmarshal(b, &all); e != nil {
 		panic(e)
 	}
+	scs := all.Scenarios
 	os.Remove(bin)
+
+	// ---- directed scenarios: deterministic orderings, bounds far below the holds
+	for _, d := range all.Directed {
+		c.Eval()
+		c.Count("directed:" + d.Name)
+		c.Nontrivial("directed:" + d.Name)
+		if c.Replay != "" {
+			fmt.Printf("  %s: notes=%v failures=%v\n", d.Name, d.Notes, d.Failures)
+		}
+		for _, f := range d.Failures {
+			c.Fail("directed:"+d.Name+":"+strings.SplitN(f, ":", 2)[0], f, map[string]interface{}{"kind": "directed", "name": d.Name, "notes": d.Notes})
+		}
+	}
 
 	for _, sc := range scs {
 		c.Count("scenario:" + sc.Name)
@@ -162,7 +191,7 @@ func main() {
 		}
 	}
 	c.Res.Exhaustive = false
-	c.Res.Rule = "race-detector build of the runner; per scenario 6 reader goroutines (Get 70%, List, GetResults, Len) for 350 ms (thorough: 4 x 1.5 s) against: Refresh in a loop with one source's FetchAll held open 30 ms; lookups of unknown providers in a loop with Fetch held open 25 ms; automatic refresh every 20 ms with FetchAll held 8 ms; refreshes + misses over 24 providers whose times advance in thirds (update map grows and is merged). Sources advance advertisement times monotonically and always report the same providers. Oracles: no provider ever missing, per-reader per-provider times never decrease, >= 3 reads per reader inside every held-open call and median latency < hold/5, FetchAll calls bounded by elapsed/interval, zero race reports. One Coq case per reader (first 250 observations), accepted by monotone_versions. Non-trivial = the reader saw >= 3 distinct record times"
+	c.Res.Rule = "race-detector build of the runner; per scenario 6 reader goroutines (Get 70%, List, GetResults, Len) for 350 ms (thorough: 4 x 1.5 s) against: Refresh in a loop with one source's FetchAll held open 30 ms; lookups of unknown providers in a loop with Fetch held open 25 ms; automatic refresh every 20 ms with FetchAll held 8 ms; refreshes + misses over 24 providers whose times advance in thirds (update map grows and is merged). Sources advance advertisement times monotonically and always report the same providers. Oracles: no provider ever missing, per-reader per-provider times never decrease, >= 3 reads per reader inside every held-open call and median latency < hold/5, FetchAll calls bounded by elapsed/interval, zero race reports. One Coq case per reader (first 250 observations), accepted by monotone_versions. Directed deterministic scenarios (the scripted source signals when a call is entered and keeps it open until released): reads of a cached provider with the refresh interval elapsed and FetchAll held open 400 ms / with a miss of another provider held open in Fetch / both: Get, GetResults, List must each return within 100 ms; a Refresh held open with new data (P advanced, Q added) while two misses queue behind it, and a miss held open while a Refresh and a second miss queue: afterwards P has the newer record and P, Q, R, R2 are all listed (3 rounds each). Non-trivial = the reader saw >= 3 distinct record times"
 }
 
 func totalReads(sc Scenario) int {
